@@ -359,86 +359,96 @@ pub fn arm_virtual_time() -> Rc<ClockState> {
 
 // ---- a caller-side text type whose equality is not byte equality ---------------------------
 
-/// ASCII-case-insensitive byte string: `DiffableStr` is a public trait, so a diff over such a
-/// type has to go by the type's own Eq / Hash / Ord, never by its bytes.
+/// Caller-side text types: `DiffableStr` is a public trait, so a diff over such a type has to
+/// go by the type's own Eq / Hash / Ord, never by its bytes.
+///   MODE 0 (`Ci`): ASCII-case-insensitive equality, ordering and hashing;
+///   MODE 1 (`Ch`): byte-wise equality with a legal but COARSE hash (the length only), so that
+///                  many unequal tokens share a hash value;
+///   MODE 2 (`Wc`): byte-wise equality, but `len()` and `slice()` count CHARACTERS, not bytes
+///                  (on valid UTF-8; the trait only says "the length of the string").
 #[repr(transparent)]
 #[derive(Debug)]
-pub struct Ci(pub [u8]);
+pub struct Wrap<const MODE: u8>(pub [u8]);
+pub type Ci = Wrap<0>;
+pub type Ch = Wrap<1>;
+pub type Wc = Wrap<2>;
 
-impl Ci {
-    pub fn new(b: &[u8]) -> &Ci {
-        // SAFETY: Ci is a transparent wrapper of [u8]
-        unsafe { &*(b as *const [u8] as *const Ci) }
+impl<const MODE: u8> Wrap<MODE> {
+    pub fn new(b: &[u8]) -> &Wrap<MODE> {
+        // SAFETY: Wrap is a transparent wrapper of [u8]
+        unsafe { &*(b as *const [u8] as *const Wrap<MODE>) }
     }
     fn folded(&self) -> impl Iterator<Item = u8> + '_ {
-        self.0.iter().map(|b| b.to_ascii_lowercase())
+        self.0.iter().map(|b| if MODE == 0 { b.to_ascii_lowercase() } else { *b })
     }
 }
 
-impl PartialEq for Ci {
-    fn eq(&self, other: &Ci) -> bool {
+impl<const MODE: u8> PartialEq for Wrap<MODE> {
+    fn eq(&self, other: &Wrap<MODE>) -> bool {
         self.0.len() == other.0.len() && self.folded().eq(other.folded())
     }
 }
-impl Eq for Ci {}
-impl std::hash::Hash for Ci {
+impl<const MODE: u8> Eq for Wrap<MODE> {}
+impl<const MODE: u8> std::hash::Hash for Wrap<MODE> {
     fn hash<H: std::hash::Hasher>(&self, h: &mut H) {
         h.write_usize(self.0.len());
-        for b in self.folded() {
-            h.write_u8(b);
+        if MODE != 1 {
+            for b in self.folded() {
+                h.write_u8(b);
+            }
         }
     }
 }
-impl PartialOrd for Ci {
-    fn partial_cmp(&self, other: &Ci) -> Option<std::cmp::Ordering> {
+impl<const MODE: u8> PartialOrd for Wrap<MODE> {
+    fn partial_cmp(&self, other: &Wrap<MODE>) -> Option<std::cmp::Ordering> {
         Some(self.cmp(other))
     }
 }
-impl Ord for Ci {
-    fn cmp(&self, other: &Ci) -> std::cmp::Ordering {
+impl<const MODE: u8> Ord for Wrap<MODE> {
+    fn cmp(&self, other: &Wrap<MODE>) -> std::cmp::Ordering {
         self.folded().cmp(other.folded())
     }
 }
 
 #[derive(Debug, Clone, PartialEq, Eq)]
-pub struct CiBuf(pub Vec<u8>);
+pub struct WrapBuf<const MODE: u8>(pub Vec<u8>);
 
-impl std::borrow::Borrow<Ci> for CiBuf {
-    fn borrow(&self) -> &Ci {
-        Ci::new(&self.0)
+impl<const MODE: u8> std::borrow::Borrow<Wrap<MODE>> for WrapBuf<MODE> {
+    fn borrow(&self) -> &Wrap<MODE> {
+        Wrap::new(&self.0)
     }
 }
-impl ToOwned for Ci {
-    type Owned = CiBuf;
-    fn to_owned(&self) -> CiBuf {
-        CiBuf(self.0.to_vec())
+impl<const MODE: u8> ToOwned for Wrap<MODE> {
+    type Owned = WrapBuf<MODE>;
+    fn to_owned(&self) -> WrapBuf<MODE> {
+        WrapBuf(self.0.to_vec())
     }
 }
 
-fn ci_vec(v: Vec<&[u8]>) -> Vec<&Ci> {
-    v.into_iter().map(Ci::new).collect()
+fn wrap_vec<const MODE: u8>(v: Vec<&[u8]>) -> Vec<&Wrap<MODE>> {
+    v.into_iter().map(Wrap::new).collect()
 }
 
-impl similar::DiffableStr for Ci {
-    fn tokenize_lines(&self) -> Vec<&Ci> {
-        ci_vec(self.0.tokenize_lines())
+impl<const MODE: u8> similar::DiffableStr for Wrap<MODE> {
+    fn tokenize_lines(&self) -> Vec<&Wrap<MODE>> {
+        wrap_vec(self.0.tokenize_lines())
     }
-    fn tokenize_lines_and_newlines(&self) -> Vec<&Ci> {
-        ci_vec(self.0.tokenize_lines_and_newlines())
+    fn tokenize_lines_and_newlines(&self) -> Vec<&Wrap<MODE>> {
+        wrap_vec(self.0.tokenize_lines_and_newlines())
     }
-    fn tokenize_words(&self) -> Vec<&Ci> {
-        ci_vec(self.0.tokenize_words())
+    fn tokenize_words(&self) -> Vec<&Wrap<MODE>> {
+        wrap_vec(self.0.tokenize_words())
     }
-    fn tokenize_chars(&self) -> Vec<&Ci> {
-        ci_vec(self.0.tokenize_chars())
+    fn tokenize_chars(&self) -> Vec<&Wrap<MODE>> {
+        wrap_vec(self.0.tokenize_chars())
     }
     #[cfg(feature = "unicode")]
-    fn tokenize_unicode_words(&self) -> Vec<&Ci> {
-        ci_vec(self.0.tokenize_unicode_words())
+    fn tokenize_unicode_words(&self) -> Vec<&Wrap<MODE>> {
+        wrap_vec(self.0.tokenize_unicode_words())
     }
     #[cfg(feature = "unicode")]
-    fn tokenize_graphemes(&self) -> Vec<&Ci> {
-        ci_vec(self.0.tokenize_graphemes())
+    fn tokenize_graphemes(&self) -> Vec<&Wrap<MODE>> {
+        wrap_vec(self.0.tokenize_graphemes())
     }
     fn as_str(&self) -> Option<&str> {
         std::str::from_utf8(&self.0).ok()
@@ -450,13 +460,31 @@ impl similar::DiffableStr for Ci {
         self.0.ends_with_newline()
     }
     fn len(&self) -> usize {
-        self.0.len()
+        match (MODE, std::str::from_utf8(&self.0)) {
+            (2, Ok(s)) => s.chars().count(),
+            _ => self.0.len(),
+        }
     }
-    fn slice(&self, rng: std::ops::Range<usize>) -> &Ci {
-        Ci::new(&self.0[rng])
+    fn slice(&self, rng: std::ops::Range<usize>) -> &Wrap<MODE> {
+        match (MODE, std::str::from_utf8(&self.0)) {
+            (2, Ok(s)) => {
+                let at = |k: usize| s.char_indices().nth(k).map(|x| x.0).unwrap_or(s.len());
+                Wrap::new(&self.0[at(rng.start)..at(rng.end)])
+            }
+            _ => Wrap::new(&self.0[rng]),
+        }
     }
     fn as_bytes(&self) -> &[u8] {
         &self.0
+    }
+}
+
+/// Sized element type with byte-wise equality and a coarse hash (parity only).
+#[derive(PartialEq, Eq, PartialOrd, Ord, Clone, Copy, Debug)]
+pub struct CoarseHash(pub u8);
+impl std::hash::Hash for CoarseHash {
+    fn hash<H: std::hash::Hasher>(&self, h: &mut H) {
+        h.write_u8(self.0 & 1);
     }
 }
 
